@@ -127,6 +127,86 @@ fn padded_bulk(size: usize, id: &str) -> Vec<u8> {
   format!("{{\"docs\":[{{\"_id\":\"{id}\",\"body\":\"{}\"}}]}}", "x".repeat(pad)).into_bytes()
 }
 
+/// text whose byte offsets do not line up with character boundaries: a short ASCII prefix of
+/// random length, then characters of mixed UTF-8 widths (2, 3 and 4 bytes) until at least
+/// `min_bytes` bytes — code that cuts such text at a byte index (error messages quoting the
+/// input, snippets, previews) hits the middle of a character for most cut points
+fn wide_text(rng: &mut Rng, min_bytes: usize) -> String {
+  const WIDE: [&str; 12] = ["é", "ï", "ü", "ß", "日", "本", "語", "한", "€", "😀", "🦀", "𝄞"];
+  let mut t = String::new();
+  for _ in 0..rng.below(8) {
+    t.push((b'a' + rng.below(26) as u8) as char);
+  }
+  while t.len() < min_bytes {
+    t.push_str(WIDE[rng.below(WIDE.len())]);
+    if rng.chance(1, 9) {
+      t.push(' ');
+    }
+  }
+  t
+}
+
+fn wide_len(rng: &mut Rng) -> usize {
+  *rng.pick(&[40usize, 62, 66, 70, 90, 130, 200, 260, 520])
+}
+
+/// long NDJSON lines with multi-byte characters: invalid JSON, non-objects, rejected documents
+fn wide_ndjson(rng: &mut Rng) -> Vec<u8> {
+  let n = wide_len(rng);
+  let w = wide_text(rng, n);
+  let line = match rng.below(8) {
+    0 => format!("{{\"_id\":\"w1\",\"body\":\"{w}"),
+    1 => w.clone(),
+    2 => format!("{{\"_id\":\"w1\",\"body\":\"{w}\",}}"),
+    3 => json!(w).to_string(),
+    4 => json!({"_id": "w1", "body": [w, 5]}).to_string(),
+    5 => {
+      let mut d = json!({"_id": "w1", "body": "x"});
+      d[w.as_str()] = json!(1);
+      d.to_string()
+    }
+    6 => json!({"body": w}).to_string(),
+    _ => format!("[\"{w}\", {w}]"),
+  };
+  let mut body = Vec::new();
+  if rng.chance(1, 3) {
+    body.extend_from_slice(b"{\"_id\":\"ok1\",\"body\":\"rust\"}\n");
+  }
+  if rng.chance(1, 4) {
+    body.extend_from_slice(b"  \t");
+  }
+  body.extend_from_slice(line.as_bytes());
+  body.push(b'\n');
+  body
+}
+
+/// long bodies with multi-byte characters for the JSON endpoints: cut-off JSON, and valid
+/// JSON whose wide member ends up in an error message (unknown field, bad cursor, bad id, …)
+fn wide_json(rng: &mut Rng) -> (&'static str, Vec<u8>) {
+  let n = wide_len(rng);
+  let w = wide_text(rng, n);
+  match rng.below(14) {
+    0 => ("/search", format!("{{\"query\":\"{w}").into_bytes()),
+    1 => ("/search", format!("{{\"limit\":3,\"return_stored\":true,\"query\":{{\"type\":\"{w}\"}}}}").into_bytes()),
+    2 => ("/search", json!({"query": {"type":"term","field": w, "value": "x"}, "limit": 3, "return_stored": true}).to_string().into_bytes()),
+    3 => ("/search", json!({"query": "rust", "limit": 3, "return_stored": true, "sort": [{"field": w}]}).to_string().into_bytes()),
+    4 => ("/search", json!({"query": "rust", "limit": 3, "return_stored": true, "cursor": w}).to_string().into_bytes()),
+    5 => ("/search", json!({"query": w, "limit": 3, "return_stored": true, "highlight_field": w}).to_string().into_bytes()),
+    6 => ("/search", json!({"query": "rust", "limit": 3, "return_stored": false, "aggs": {"a": {"type":"terms","field": w}}}).to_string().into_bytes()),
+    7 => ("/search", json!({"query": {"type":"regex","field":"body","value": format!("({w}")}, "limit": 3, "return_stored": false}).to_string().into_bytes()),
+    8 => ("/delete", json!({"ids": [format!(" {w}")]}).to_string().into_bytes()),
+    9 => ("/delete", format!("{{\"ids\":[\"{w}\",]}}").into_bytes()),
+    10 => {
+      let mut d = json!({"_id": "w2", "body": "x"});
+      d[w.as_str()] = json!(true);
+      ("/bulk", json!({"docs": [d]}).to_string().into_bytes())
+    }
+    11 => ("/bulk", json!({"docs": [w]}).to_string().into_bytes()),
+    12 => ("/init", json!({"text_fields":[{"name": w, "analyzer": w, "stored": true, "indexed": true}],"keyword_fields":[],"numeric_fields":[]}).to_string().into_bytes()),
+    _ => ("/init", format!("{{\"text_fields\":[{{\"name\":\"{w}\"").into_bytes()),
+  }
+}
+
 fn step(tag: &str, method: &str, path: &str, ct: Option<&str>, body: &[u8], framing: &str) -> Value {
   json!({"tag": tag, "method": method, "path": path, "ct": ct, "body": hex(body), "framing": framing})
 }
@@ -211,7 +291,11 @@ fn gen_step(rng: &mut Rng, max_body: usize, next_id: &mut usize, allow_stall: &m
   let k = rng.below(100);
   let sreq = search_pool(rng);
   match k {
-    0..=5 => step("healthz", "GET", "/healthz", None, b"", "cl"),
+    0..=2 => step("healthz", "GET", "/healthz", None, b"", "cl"),
+    3..=5 => {
+      let (path, body) = wide_json(rng);
+      step("wide.json", "POST", path, Some(j), &body, "cl")
+    }
     6..=8 => step("stats", "GET", if rng.chance(1, 2) { "/stats" } else { "/inspect" }, None, b"", "cl"),
     9..=14 => {
       let s = schema_pool(rng.below(3));
@@ -237,7 +321,11 @@ fn gen_step(rng: &mut Rng, max_body: usize, next_id: &mut usize, allow_stall: &m
       let framing = if rng.chance(1, 4) { format!("chunked:{}", 1 + rng.below(64)) } else { "cl".into() };
       step("add.valid", "POST", "/add", if rng.chance(1, 2) { Some("application/x-ndjson") } else { None }, &ndjson(&docs), &framing)
     }
-    25..=29 => {
+    25..=26 => {
+      let body = wide_ndjson(rng);
+      step("wide.ndjson", "POST", "/add", None, &body, if rng.chance(1, 5) { "chunked:37" } else { "cl" })
+    }
+    27..=29 => {
       let body: Vec<u8> = match rng.below(8) {
         0 => b"{nope\n".to_vec(),
         1 => b"[1,2]\n".to_vec(),
